@@ -12,13 +12,15 @@ import ledger_mutators as M
 import vlib
 
 PROP = "C06"
-SEQ = "no" == "yes"
+SEQ = True
 
 
 def run(c):
     if SEQ:
+        # sequential half: a request is accepted exactly when every bounded source stays within its allowance after
+        # the postings applied in order (Ledger!FundsOK) - incl. scripts using one bounded-overdraft source twice
         d = L.build_pipeline(c.tier, c.seed)
-        L.evaluate(c, PROP, d)
+        L.evaluate(c, PROP, d, extra_preds=("Step_C25_Funds",))
         pred, mut = M.CONTROLS[PROP]
         c.set("negative_control_sequential", L.negative_control(d, c.seed, pred, mut))
     dc = K.build_conc(c.tier, c.seed, PROP)
